@@ -387,8 +387,19 @@ def blk_lines(job, rng, nstores):
       meta.append(('unmodelled', pm['name'], bname, str(e))); continue
     body = it[2] if it[0] == 'comb' else it[3]
     line = leanio.line('sv', 'blk', job.be, sp.module_sexp(pm), rs, sp.stmt_sexp(body), random_stores(rng, pm, nstores))
-    lines.append(line); meta.append(('line', pm['name'], bname))
+    lines.append(line); meta.append(('line', pm['name'], bname, node_kinds(rs, {})))
   return lines, meta
+
+def node_kinds(t, acc):
+  """how often each RStmt / RExpr constructor occurs in a converted block (for the evidence)"""
+  if isinstance(t, tuple) and t and isinstance(t[0], str):
+    k = t[0]
+    if k in ('bin', 'cmp', 'reduce'): k = f'{k}:{t[1]}'
+    if k == 'assign': k = 'assign:' + ('blocking' if t[1] else 'nonblocking')
+    if k == 'for': k = 'for:' + ('neg' if t[7] else 'pos')
+    acc[k] = acc.get(k, 0) + 1
+    for x in t[1:]: node_kinds(x, acc)
+  return acc
 
 def compare_traces(job, r):
   """first mismatches between the PyMTL trace and the Lean simulation of the parsed text"""
@@ -606,6 +617,7 @@ def run_batch(ck, be, designs, stats, ncycles, nstores, tie=True):
     # semantic tie with the model of the translator
     for m, rep in j.blk:
       stats['blocks_tied'] = stats.get('blocks_tied', 0) + 1
+      for kk, nn in m[3].items(): ck.hist('rtlir-node', kk, nn)
       if rep != 'same':
         stats['blocks_differ'] = stats.get('blocks_differ', 0) + 1
         if not found and not d.get('finding'):
